@@ -39,10 +39,10 @@ Proof. intros H. unfold u32. apply N.mod_small. exact H. Qed.
 
 Lemma compact_encode_len n : (length (compact_encode n) <= 9)%nat.
 Proof.
-  destruct n as [z|u|b]; cbn [compact_encode].
-  - destruct (z =? 0)%Z; [cbn; lia|]. unfold int_width.
+  destruct n as [z|u|b]; cbn [compact_encode]; unfold CE_INT_ZERO, CE_UINT_ZERO.
+  - destruct (z =? 0)%Z; [cbn; lia|]. unfold int_width, CE_INT_FITS1, CE_INT_FITS2, CE_INT_FITS3, CE_INT_W1, CE_INT_W2, CE_INT_W3, CE_INT_W4.
     repeat match goal with |- context [if ?c then _ else _] => destruct c end; cbn; lia.
-  - destruct (u =? 0); [cbn; lia|]. unfold uint_width.
+  - destruct (u =? 0); [cbn; lia|]. unfold uint_width, CE_UINT_FITS1, CE_UINT_FITS2, CE_UINT_FITS3, CE_UINT_W1, CE_UINT_W2, CE_UINT_W3, CE_UINT_W4.
     repeat match goal with |- context [if ?c then _ else _] => destruct c end; cbn; lia.
   - repeat match goal with |- context [if ?c then _ else _] => destruct c end; cbn; lia.
 Qed.
